@@ -202,3 +202,174 @@ Proof.
   destruct (tokens_of_string s) as [toks e] eqn:TK. cbn [fst] in E. subst toks.
   exact (ConsBridge.tokenize_wf _ _ _ TK).
 Qed.
+
+(* ====================================================================== *)
+(* The hypotheses cannot be weakened, the conclusions not strengthened     *)
+(* ====================================================================== *)
+
+(* a hand-made document - NOT tokenizer output: every token records offset 0 -
+   \begin{q}\a[x]{y}$z$\end{q}w *)
+Definition tk (s : str) (c : tc) : token := mkt s 0%Z c.
+Definition exP_doc : list doc :=
+  let esc := tk [92]%N TEscape in
+  let ob := tk [123]%N TGroupBegin in
+  let cb := tk [125]%N TGroupEnd in
+  let dollar := tk [36]%N TMathSwitch in
+  let q := tk [113]%N TText in
+  [ DEnv esc (tk [98;101;103;105;110]%N TCommandName) (Arg None GBrace ob [DLeaf q] cb) []
+      [ DCmd esc (tk [97]%N TCommandName)
+          [ Arg None GBracket (tk [91]%N TBracketBegin) [DLeaf (tk [120]%N TText)]
+                (tk [93]%N TBracketEnd);
+            Arg None GBrace ob [DLeaf (tk [121]%N TText)] cb ];
+        DMath MInline dollar [DLeaf (tk [122]%N TText)] dollar ]
+      esc (tk [101;110;100]%N TCommandName) (Arg None GBrace ob [DLeaf q] cb);
+    DLeaf (tk [119]%N TText) ].
+Definition exP_src : str :=
+  [92;98;101;103;105;110;123;113;125;92;97;91;120;93;123;121;125;36;122;36;92;101;110;100;123;113;125;119]%N.
+
+Example exP_hyps :
+  render exP_doc = exP_src /\
+  wf_seq (all_skip []) false CTop exP_doc [] = true /\ forallb printable exP_doc = true /\
+  lexb (flat_list exP_doc) = true.
+Proof. repeat split; vm_compute; reflexivity. Qed.
+
+(* conclusions by the theorems *)
+Example exP_structure strict :
+  exists t', parse exP_src strict [] = Ok t' /\
+             FixedPoint.expr_pos_sim (ERoot (map tree exP_doc)) t' /\ estr t' = exP_src.
+Proof.
+  destruct exP_hyps as (R & W & P & L). destruct (lexb_parts _ L) as (Sh & Fo & Fi).
+  destruct (structure_string exP_doc strict [] W Sh Fo Fi) as [(t' & Pa & S) _].
+  destruct (grammar_parses_and_roundtrips exP_doc strict [] W P Sh Fo Fi) as (t2 & Pa2 & E).
+  rewrite R in *. exists t'. split; [exact Pa|]. split; [exact S|]. congruence.
+Qed.
+
+(* "up to positions" cannot be dropped when the tokens do not carry
+   consecutive offsets *)
+Theorem structure_string_literal_refuted :
+  exists ds,
+    wf_seq (all_skip []) false CTop ds [] = true /\ lexb (flat_list ds) = true /\
+    parse (render ds) true [] <> Ok (ERoot (map tree ds)).
+Proof.
+  exists exP_doc. split; [vm_compute; reflexivity|]. split; [vm_compute; reflexivity|].
+  vm_compute. discriminate.
+Qed.
+
+(* the lexical hypotheses cannot be dropped: two adjacent Text leaves `a` `b`
+   are a well-formed grammar document, but its text "ab" is ONE Text token *)
+Theorem structure_string_without_lexical_refuted :
+  exists ds t',
+    wf_seq (all_skip []) false CTop ds [] = true /\
+    forallb TokInverse.shape (flat_list ds) = true /\ TokInverse.first_ok (flat_list ds) = true /\
+    TokInverse.follows_ok (flat_list ds) = false /\
+    parse (render ds) true [] = Ok t' /\ ~ FixedPoint.expr_pos_sim (ERoot (map tree ds)) t'.
+Proof.
+  exists [DLeaf (tk [97]%N TText); DLeaf (tk [98]%N TText)]. eexists.
+  split; [vm_compute; reflexivity|]. split; [vm_compute; reflexivity|].
+  split; [vm_compute; reflexivity|]. split; [vm_compute; reflexivity|].
+  split; [vm_compute; reflexivity|]. apply FixedPoint.not_sim. vm_compute. discriminate.
+Qed.
+
+(* `printable` cannot be dropped from the round trip: ex1 =
+   \a[x]{y \b{z}} {g $m_1$} t has a spacer before the third argument; the
+   tree is the grammar's tree but prints without that spacer (C01 defect) *)
+Theorem roundtrip_without_printable_refuted :
+  exists ds t',
+    wf_seq (all_skip []) false CTop ds [] = true /\ lexb (flat_list ds) = true /\
+    forallb printable ds = false /\
+    parse (render ds) true [] = Ok t' /\ t' = ERoot (map tree ds) /\
+    estr t' <> render ds /\ length (estr t') = Nat.pred (length (render ds)).
+Proof.
+  exists ex1_doc. eexists.
+  split; [vm_compute; reflexivity|]. split; [vm_compute; reflexivity|].
+  split; [vm_compute; reflexivity|]. split; [vm_compute; reflexivity|].
+  split; [vm_compute; reflexivity|]. split; [vm_compute; discriminate | vm_compute; reflexivity].
+Qed.
+
+(* ====================================================================== *)
+(* Non-vacuity on the six documents of ReaderComplete.v                    *)
+(* ====================================================================== *)
+
+(* everything the examples need of a source / document pair, computed *)
+Definition ex_hyps (src : str) (doc : list doc) : Prop :=
+  TokInverse.clean src = true /\ TokInverse.start_quirk src = false /\
+  fst (tokens_of_string src) = flat_list doc /\
+  wf_seq (all_skip []) false CTop doc [] = true.
+
+(* ... and everything the theorems conclude from it *)
+Definition ex_concl (src : str) (doc : list doc) : Prop :=
+  render doc = src /\ lexb (flat_list doc) = true /\
+  TokInverse.offsets_ok 0 (flat_list doc) /\
+  forall strict,
+    parse src strict [] = Ok (ERoot (map tree doc)) /\
+    parse (render doc) strict [] = Ok (ERoot (map tree doc)) /\
+    exists t', parse (render doc) strict [] = Ok t' /\
+               FixedPoint.expr_pos_sim (ERoot (map tree doc)) t'.
+
+Lemma ex_by_theorems src doc : ex_hyps src doc -> ex_concl src doc.
+Proof.
+  intros (Cl & Q & E & W).
+  destruct (source_lexical src doc Cl Q E) as (R & Sh & Fo & Fi & Off).
+  split; [exact R|]. split; [apply lexb_of_parts; assumption|]. split; [exact Off|].
+  intro strict. split; [apply structure_of_source; assumption|].
+  destruct (structure_string doc strict [] W Sh Fo Fi) as [X Y]. split; [exact (Y Off) | exact X].
+Qed.
+
+Lemma ex_roundtrip src doc : ex_hyps src doc -> forallb printable doc = true ->
+  forall strict, exists t', parse src strict [] = Ok t' /\ estr t' = src.
+Proof.
+  intros (Cl & Q & E & W) P strict.
+  destruct (source_lexical src doc Cl Q E) as (R & Sh & Fo & Fi & _).
+  destruct (grammar_parses_and_roundtrips doc strict [] W P Sh Fo Fi) as (t' & Pa & Es).
+  rewrite R in *. exists t'. split; assumption.
+Qed.
+
+Example ex1_hyps : ex_hyps ex1_src ex1_doc.
+Proof. repeat split; vm_compute; reflexivity. Qed.
+Example ex2_hyps : ex_hyps ex2_src ex2_doc /\ forallb printable ex2_doc = true.
+Proof. repeat split; vm_compute; reflexivity. Qed.
+Example ex3_hyps : ex_hyps ex3_src ex3_doc /\ forallb printable ex3_doc = true.
+Proof. repeat split; vm_compute; reflexivity. Qed.
+Example ex4_hyps : ex_hyps ex4_src ex4_doc /\ forallb printable ex4_doc = true.
+Proof. repeat split; vm_compute; reflexivity. Qed.
+Example ex5_hyps : ex_hyps ex5_src ex5_doc /\ forallb printable ex5_doc = true.
+Proof. repeat split; vm_compute; reflexivity. Qed.
+Example ex6_hyps : ex_hyps ex6_src ex6_doc /\ forallb printable ex6_doc = true.
+Proof. repeat split; vm_compute; reflexivity. Qed.
+
+(* hypotheses computed, conclusions by the theorems *)
+Definition ex_roundtrips (src : str) : Prop :=
+  forall strict, exists t', parse src strict [] = Ok t' /\ estr t' = src.
+
+Lemma ex_full src doc : ex_hyps src doc -> ex_hyps src doc /\ ex_concl src doc.
+Proof. intro H. split; [exact H | exact (ex_by_theorems src doc H)]. Qed.
+
+Lemma ex_full_printable src doc : ex_hyps src doc /\ forallb printable doc = true ->
+  ex_hyps src doc /\ forallb printable doc = true /\ ex_concl src doc /\ ex_roundtrips src.
+Proof.
+  intros [H P]. split; [exact H|]. split; [exact P|].
+  split; [exact (ex_by_theorems src doc H) | exact (ex_roundtrip src doc H P)].
+Qed.
+
+Example ex1_string : ex_hyps ex1_src ex1_doc /\ ex_concl ex1_src ex1_doc.
+Proof. exact (ex_full _ _ ex1_hyps). Qed.
+Example ex2_string :
+  ex_hyps ex2_src ex2_doc /\ forallb printable ex2_doc = true /\
+  ex_concl ex2_src ex2_doc /\ ex_roundtrips ex2_src.
+Proof. exact (ex_full_printable _ _ ex2_hyps). Qed.
+Example ex3_string :
+  ex_hyps ex3_src ex3_doc /\ forallb printable ex3_doc = true /\
+  ex_concl ex3_src ex3_doc /\ ex_roundtrips ex3_src.
+Proof. exact (ex_full_printable _ _ ex3_hyps). Qed.
+Example ex4_string :
+  ex_hyps ex4_src ex4_doc /\ forallb printable ex4_doc = true /\
+  ex_concl ex4_src ex4_doc /\ ex_roundtrips ex4_src.
+Proof. exact (ex_full_printable _ _ ex4_hyps). Qed.
+Example ex5_string :
+  ex_hyps ex5_src ex5_doc /\ forallb printable ex5_doc = true /\
+  ex_concl ex5_src ex5_doc /\ ex_roundtrips ex5_src.
+Proof. exact (ex_full_printable _ _ ex5_hyps). Qed.
+Example ex6_string :
+  ex_hyps ex6_src ex6_doc /\ forallb printable ex6_doc = true /\
+  ex_concl ex6_src ex6_doc /\ ex_roundtrips ex6_src.
+Proof. exact (ex_full_printable _ _ ex6_hyps). Qed.
